@@ -218,7 +218,7 @@ def build_lattice(tier, rng):
     if tier == "quick":
         single = list(lattice_single(12, (1, 2, 3, 4, 5, 6, 7, 8), False))
         rng.shuffle(single)
-        gens += single[:9000]
+        gens += single[:6000]
         for g, frac in ((lattice_split(), 0.35), (lattice_concat(), 0.25)):
             xs = list(g)
             rng.shuffle(xs)
@@ -235,11 +235,19 @@ def build_lattice(tier, rng):
 
 
 # ------------------------------------------------------------------------------------------- candidates from TLC
-def case_from_stripes_cand(t, cid):
+def case_from_tuple(t, cid, fam):
+    """a case of the StripesMC lattice (CaseTuple) -> driver case exercising that axis of a real operator."""
     ax, i, ro, rl, sp, wo, o_, k, d, s, pt, epb, epa, up, h, a = t
-    cls = ("conv", "dw", "avgpool")[(k + s + i) % 3] if d == 1 else ("conv", "dw")[(k + i) % 2]
-    o = {"cls": cls, "oc": 8, "pad": pt}
     other = 6
+    if up == 2:
+        o = {"cls": "tconv", "oc": 8, "pad": pt, "up": "transpose"}
+    elif up == 1:
+        o = {"cls": "avgpool", "pad": pt, "up": "nearest"}
+    else:
+        cls = ("conv", "dw", "avgpool", "maxpool")[(k + s + i) % 4] if d == 1 else ("conv", "dw")[(k + i) % 2]
+        if cls == "maxpool" and pt == "EXPLICIT":
+            cls = "avgpool"
+        o = {"cls": cls, "oc": 8, "pad": pt}
     if ax == "H":
         o.update(kh=k, kw=1, dh=d, sh=s, ep=[epb, 0, epa, 0])
         ifm = [i, other, 8]
@@ -254,28 +262,29 @@ def case_from_stripes_cand(t, cid):
             o.update(roff=[0, ro, 0], rshape=[other, rl, 8])
         if wo:
             o.update(woff=[0, wo, 0], otens=[other, o_ + wo + 2, 8])
-    if up:
-        return None      # upscaled cases are all in the claimed region; they come from lattice_upscale
-    c = {"id": cid, "fam": "mc-candidate", "ifm": ifm, "ops": [o]}
+    c = {"id": cid, "fam": fam, "ifm": ifm, "ops": [o]}
     if ax == "H":
         c["ops"][0]["stripe"] = h
+    sh = drv.case_shapes(c)
+    if sh is None or sh[0][2][0 if ax == "H" else 1] != o_:
+        raise MachineryError("lattice mismatch: StripesMC says O=%s for %s, the driver computes %s" % (o_, t, sh and sh[0][2]))
     return c
 
 
-def case_from_cascade_cand(t, cid):
+def case_from_cascade_cand(t, cid, fam="mc-cascade-candidate"):
     h1, shapes, hf = t
     ops = [{"cls": "conv", "kh": 1, "kw": 1, "pad": "VALID", "oc": 8}]
     for j, (k, d, s, pt) in enumerate(shapes):
         cls = "conv" if d > 1 else ("dw", "maxpool", "conv", "avgpool")[(k + j) % 4]
         ops.append({"cls": cls, "kh": k, "kw": 1, "dh": d, "sh": s, "pad": pt, "oc": 8})
     ops[-1]["stripe"] = hf
-    return {"id": cid, "fam": "mc-cascade-candidate", "ifm": [h1, 4, 8], "ops": ops}
+    return {"id": cid, "fam": fam, "ifm": [h1, 4, 8], "ops": ops}
 
 
-def parse_cands(res):
+def parse_cands(res, tag="CAND"):
     out = []
     for ln in res["printed"]:
-        if ln.startswith('<<"CAND"'):
+        if ln.startswith('<<"%s"' % tag):
             out.append(json.loads(tlc.parse_value(ln)[1]))
     return out
 
@@ -524,17 +533,34 @@ def main(tier, only=None):
         ts = by_class[cl]
         rng.shuffle(ts)
         for t in ts[:per_class]:
-            c = case_from_stripes_cand(t, cid)
-            if c is not None:
-                cand_cases.append(c)
-                cid += 1
+            cand_cases.append(case_from_tuple(t, cid, "mc-candidate"))
+            cid += 1
+    # the lattice TLC enumerated for the design-level proof, replayed case by case on the real code
+    tlc_cases = parse_cands(mc["stripes"], "CASE")
+    if not tlc_cases:
+        raise MachineryError("StripesMC printed no CASE line")
+    for t in tlc_cases:
+        cand_cases.append(case_from_tuple(t, cid, "tlc-lattice"))
+        cid += 1
     rng.shuffle(ccs)
     for t in ccs[:(60 if quick else 5000)]:
         cand_cases.append(case_from_cascade_cand(t, cid))
         cid += 1
+    seen, tlc_casc = set(), []
+    for t in parse_cands(mc["cascade"], "CASE") + parse_cands(mc["cascade_s3"], "CASE"):
+        key = json.dumps(t)
+        if key not in seen:
+            seen.add(key)
+            tlc_casc.append(t)
+    if not tlc_casc:
+        raise MachineryError("Cascade printed no CASE line")
+    for t in tlc_casc:
+        cand_cases.append(case_from_cascade_cand(t, cid, "tlc-cascade-lattice"))
+        cid += 1
     cand_results = run_cases(cand_cases)
     run.cov["mc_candidates"] = {"stripes_states": len(scands), "stripes_classes": len(by_class), "cascade_geometries": len(ccs),
-                                "cascade_claimed_region": len(parse_cands(mc["cascade"])), "replayed_on_real_code": len(cand_cases)}
+                                "cascade_claimed_region": len(parse_cands(mc["cascade"])), "tlc_enumerated_lattice": len(tlc_cases), "tlc_enumerated_cascades": len(tlc_casc),
+                                "replayed_on_real_code": len(cand_cases)}
     cases += cand_cases
     results.update(cand_results)
     # ---- C2S: TLC decides
